@@ -31,6 +31,10 @@ type limitShape struct {
 	build func(n int) (script string, want lang.Value)
 }
 
+// runtimeLimited: shapes that may meet a limit of the running machine (call
+// depth, nesting depth of values); for them a run-time error is an answer.
+var runtimeLimited = map[string]bool{"recursion-depth": true, "value-nesting-built-at-run-time": true, "array-literal-nesting": true, "index-chain": true}
+
 func rep(s string, n int) string { return strings.Repeat(s, n) }
 
 var nestSizes = []int{1, 2, 254, 255, 256, 257, 9997, 9998, 9999, 10000, 10001, 10002}
@@ -38,13 +42,27 @@ var chainSizes = []int{1, 2, 255, 256, 257, 65534, 65535, 65536, 65537, 99998, 9
 var countSizes = []int{0, 1, 2, 254, 255, 256, 257, 258, 65534, 65535, 65536, 65537}
 var callSizes = []int{0, 1, 2, 9996, 9997, 9998, 9999, 10000, 10001, 10002}
 
+// byteBoundarySizes: statement counts at which a body of statements of 7 to
+// 13 bytes each crosses 65535 bytes (and twice that), one either side.
+func byteBoundarySizes() []int {
+	out := []int{1, 2, 255, 256, 257}
+	for b := 7; b <= 13; b++ {
+		for _, limit := range []int{65535, 131070} {
+			for d := -2; d <= 1; d++ {
+				out = append(out, limit/b+d)
+			}
+		}
+	}
+	return out
+}
+
 // constSizes: the constant pool is searched linearly for every literal, so
 // 65536 distinct constants cost minutes; the quick tier stays below.
 func constSizes() []int {
 	if thorough() {
-		return countSizes
+		return countSizes[1:]
 	}
-	return []int{0, 1, 2, 254, 255, 256, 257, 258, 4095, 4096, 4097}
+	return []int{1, 2, 254, 255, 256, 257, 258, 4095, 4096, 4097}
 }
 
 func limitShapes() []limitShape {
@@ -184,8 +202,13 @@ func limitShapes() []limitShape {
 			// program size around 65535 bytes for several statement lengths
 			return "c = 0;\n" + rep("c = c + 1;\n", n) + "return c;", lang.Int(int64(n))
 		}},
-		{"statements-in-function", true, []int{1, 255, 256, 257, 9361, 9362, 9363, 13106, 13107, 13108}, func(n int) (string, lang.Value) {
-			return "function big(c) {\n" + rep("c = c + 1;\n", n) + "return c;\n}\nreturn big(0);", lang.Int(int64(n))
+		{"statements-in-function", true, byteBoundarySizes(), func(n int) (string, lang.Value) {
+			// jumps at the end of a body of about 65535 bytes (whatever a
+			// statement costs: 7 to 13 bytes), forwards and backwards
+			return "function big(c) {\n" + rep("c = c + 1;\n", n) + fmt.Sprintf("if ( c == %d ) { c = c + 0; } else { return \"else\"; }\nk = 0; while ( k < 2 ) { k = k + 1; }\nforeach v in [1, 2] { c = c + v; }\nreturn c;\n}\nreturn big(0);", n), lang.Int(int64(n + 3))
+		}},
+		{"statements-then-jumps", true, byteBoundarySizes(), func(n int) (string, lang.Value) {
+			return "c = 0;\n" + rep("c = c + 1;\n", n) + fmt.Sprintf("if ( c == %d ) { c = c + 0; } else { return \"else\"; }\nk = 0; while ( k < 2 ) { k = k + 1; }\nforeach v in [1, 2] { c = c + v; }\nreturn c;", n), lang.Int(int64(n + 3))
 		}},
 		{"functions", true, []int{1, 2, 255, 256, 257, 3000}, func(n int) (string, lang.Value) {
 			var b strings.Builder
@@ -237,8 +260,16 @@ func runLimits(t *testing.T, prop string, stmt bool) {
 					violation(t, prop, c, "shape %s at size %d: panic: %v", sh.name, n, res.Panic)
 				case res.PrepareErr != nil:
 					out = "rejected"
+				case isTimeout(res.Err):
+					// every shape ends by construction after a few milliseconds
+					violation(t, prop, c, "shape %s at size %d (optimizer off: %v): the script was still running when its 20 s deadline expired", sh.name, n, noOpt)
 				case res.Err != nil:
 					out = "run-time error"
+					if !runtimeLimited[sh.name] {
+						// nothing in this shape meets a limit while it runs: it is
+						// refused by Prepare or it runs to its value
+						violation(t, prop, c, "shape %s at size %d (optimizer off: %v): accepted by Prepare, then the run failed: %v", sh.name, n, noOpt, res.Err)
+					}
 				default:
 					if err := checkResult(res, Expect{Val: want}); err != nil {
 						violation(t, prop, c, "shape %s at size %d (optimizer off: %v): %v", sh.name, n, noOpt, clip(err.Error(), 600))
